@@ -11616,6 +11616,15 @@ func (p *parser) visitAndAppendStmt(stmts []js_ast.Stmt, stmt js_ast.Stmt) []js_
 		p.recordDeclaredSymbol(s.Arg)
 		stmtsInsideNamespace := p.visitStmtsAndPrependTempRefs(s.Stmts, prependTempRefsOpts{kind: stmtsFnBody})
 		p.popScope()
+
+		// Remove unused import-equals aliases (they likely refer to types), like at the top level
+		for {
+			result := p.scanForUnusedTSImportEquals(stmtsInsideNamespace)
+			stmtsInsideNamespace = result.stmts
+			if !result.removedImportEquals {
+				break
+			}
+		}
 		p.enclosingNamespaceArgRef = oldEnclosingNamespaceArgRef
 
 		// Generate a closure for this namespace
